@@ -1035,4 +1035,246 @@ fn harden(gn: &mut Gen, thorough: bool) {
         let ns = if gn.rng.chance(1, 5) { size + gn.rng.below(3) as usize } else { size };
         emit_subst(gn, back, &Grid { h: n, w: n, v }, size, &b, ns);
     }
+    tiny_times_huge(gn, thorough);
+    edge_of_range(gn, thorough);
+}
+
+/// 2^e exactly, for every e from -1074 (the smallest subnormal) to 1023
+fn exp2i(e: i64) -> f64 {
+    if e >= -1022 { f64::from_bits(((e + 1023) as u64) << 52) } else { f64::from_bits(1u64 << (e + 1074)) }
+}
+
+/// THE EDGE OF THE NUMBER RANGE (third seeded round): whole systems at magnitude 2^-341 .. 2^-1074 (around 2^-1024, where a
+/// reciprocal overflows, and down to entries with a handful of significant bits) and 2^900 .. 2^1015, not only
+/// diagonally dominant ones: dense (pivoting needed), graded columns (a wrong pivot choice costs accuracy), small
+/// integers and dyadics times 2^e (exact).  The tiny side is judged by the plug-in's `tiny_regime` clause, the huge side is
+/// compared with the model only.
+fn edge_of_range(gn: &mut Gen, thorough: bool) {
+    let reps = if thorough { 10 } else { 1 };
+    for k in 0..320 * reps {
+        let n = gn.rng.range(1, 6) as usize;
+        let e = match k % 4 {
+            0 => -gn.rng.range(1000, 1074),
+            1 => -gn.rng.range(1016, 1032),
+            2 => -gn.rng.range(341, 1000),
+            _ => gn.rng.range(900, 1015),
+        };
+        let style = k / 4 % 5;
+        let exact = style >= 3;
+        let mut v: Vec<f64> = match style {
+            0 => dense(&mut gn.rng, n),
+            1 => dominant(&mut gn.rng, n).iter().map(|x| x * 0.125).collect(),
+            2 => {
+                // graded columns: below the diagonal 10^-t of the head
+                let t = gn.rng.range(1, 12) as i32;
+                let mut v = dense(&mut gn.rng, n);
+                for j in 0..n {
+                    for i in j + 1..n {
+                        v[i * n + j] *= 10f64.powi(-t);
+                    }
+                    v[j * n + j] = gn.rng.uniform(0.5, 1.0) * sign(&mut gn.rng);
+                }
+                v
+            }
+            3 => {
+                let mut v: Vec<f64> = (0..n * n).map(|_| gn.rng.range(-3, 3) as f64).collect();
+                for i in 0..n {
+                    v[i * n + i] = 4.0 * sign(&mut gn.rng);
+                }
+                v
+            }
+            _ => {
+                let mut v: Vec<f64> = (0..n * n).map(|_| gn.rng.dyadic(8, 2)).collect();
+                for i in 0..n {
+                    v[i * n + i] = (n as f64 + 1.0) * sign(&mut gn.rng);
+                }
+                v
+            }
+        };
+        let x: Vec<f64> = (0..n).map(|_| if exact { gn.rng.range(-3, 3) as f64 } else { gn.rng.uniform(-2.0, 2.0) }).collect();
+        // keep the dyadic styles exact: no bits may fall off the subnormal grid
+        let e = if exact && e < -1070 { -1070 } else { e };
+        let p = exp2i(e);
+        v.iter_mut().for_each(|a| *a *= p);
+        let mut b: Vec<f64> = match gn.rng.below(3) {
+            // the unknowns are of order 1
+            0 | 1 => (0..n).map(|i| (0..n).map(|j| v[i * n + j] * x[j]).sum()).collect(),
+            // the right-hand side at a neighbouring magnitude
+            _ => {
+                let f = exp2i((e + gn.rng.range(-20, 20)).clamp(-1074, 1015));
+                (0..n).map(|_| gn.rng.uniform(-1.0, 1.0) * f).collect()
+            }
+        };
+        let mut g = Grid { h: n, w: n, v };
+        if gn.rng.chance(1, 2) {
+            for i in (1..n).rev() {
+                let j = gn.rng.below(i as u64 + 1) as usize;
+                for c in 0..n {
+                    g.v.swap(i * n + c, j * n + c);
+                }
+                b.swap(i, j);
+            }
+        }
+        if e > -1050 && gn.rng.chance(1, 3) {
+            gn.scaled_rows(&mut g, &mut b, 8);
+        }
+        let tol = gn.tol();
+        gn.gauss(&g, &b, tol);
+    }
+}
+
+/// TWO RARE THINGS AT ONCE (third seeded round): an entry that is non-zero but 2^-53 .. 2^-90 of the largest entry of its
+/// own row (invisible to every test of the form `|a_ik| / scale_i < EPSILON`, "this row already has a zero here") in a
+/// column whose unknown is so large that the term still matters (`|a_ik x_k|` comparable with the other terms of
+/// equation i).  Sizes 2..10, every container kind that can hold the numbers (the small-dyadic styles fit `f32`), any
+/// row scaling, rows in order or shuffled.  Two shapes: (A) tiny entries in the column of a huge unknown; (B) one huge
+/// entry in a row (all its other entries are then below rounding level relative to it) whose unknown is tiny.
+fn tiny_times_huge(gn: &mut Gen, thorough: bool) {
+    let reps = if thorough { 10 } else { 1 };
+    for k in 0..900 * reps {
+        let n = gn.rng.range(2, 10) as usize;
+        let style = k % 5;
+        let exact = style >= 3;
+        let mut v: Vec<f64> = match style {
+            0 => dense(&mut gn.rng, n),
+            1 => dominant(&mut gn.rng, n),
+            2 => {
+                // banded / (block) triangular
+                let mut v = dense(&mut gn.rng, n);
+                let lower = gn.rng.chance(1, 2);
+                for t in 0..n * n {
+                    let (i, j) = (t / n, t % n);
+                    if i == j {
+                        v[t] = gn.rng.uniform(0.5, 1.0) * sign(&mut gn.rng);
+                    } else if (lower && j > i + 1) || (!lower && i > j + 1) {
+                        v[t] = 0.0;
+                    }
+                }
+                v
+            }
+            3 => {
+                let mut v: Vec<f64> = (0..n * n).map(|_| gn.rng.range(-3, 3) as f64).collect();
+                for i in 0..n {
+                    v[i * n + i] = 4.0 * sign(&mut gn.rng);
+                }
+                v
+            }
+            _ => {
+                let mut v: Vec<f64> = (0..n * n).map(|_| gn.rng.dyadic(8, 2)).collect();
+                for i in 0..n {
+                    v[i * n + i] = (n as f64) * sign(&mut gn.rng);
+                }
+                v
+            }
+        };
+        let mut x: Vec<f64> = (0..n).map(|_| if exact { gn.rng.range(-3, 3) as f64 } else { gn.rng.uniform(-2.0, 2.0) }).collect();
+        let t = gn.rng.range(53, 90);
+        let r = if t > 80 { gn.rng.range(0, 4) } else { gn.rng.range(-4, 4) };
+        let unit = |rng: &mut Rng| -> f64 {
+            if exact { *rng.pick(&[1.0, -1.0, 0.5, -0.5, 1.5, -3.0, 2.0]) } else { rng.uniform(0.5, 1.0) * sign(rng) }
+        };
+        if k % 2 == 0 {
+            // (A) column c belongs to a huge unknown; some rows hold a tiny entry there
+            let c = gn.rng.below(n as u64) as usize;
+            let mut must = gn.rng.below(n as u64 - 1) as usize;
+            if must >= c {
+                must += 1;
+            }
+            let lonely = gn.rng.chance(1, 3);
+            for i in 0..n {
+                if i == c {
+                    continue;
+                }
+                if i == must || gn.rng.chance(1, 2) {
+                    let mut rowmax = (0..n).filter(|j| *j != c).map(|j| v[i * n + j].abs()).fold(0.0, f64::max);
+                    if rowmax == 0.0 {
+                        v[i * n + i] = 1.0;
+                        rowmax = 1.0;
+                    }
+                    let ti = if gn.rng.chance(1, 2) { t } else { gn.rng.range(53, 90) };
+                    v[i * n + c] = unit(&mut gn.rng) * rowmax * pow2(-ti);
+                } else if lonely {
+                    v[i * n + c] = 0.0;
+                }
+            }
+            if v[c * n + c] == 0.0 {
+                v[c * n + c] = 1.0;
+            }
+            x[c] = unit(&mut gn.rng) * pow2(t + r);
+        } else {
+            // (B) one huge entry in row i, column j; its unknown is tiny
+            let i = gn.rng.below(n as u64) as usize;
+            let j = gn.rng.below(n as u64) as usize;
+            v[i * n + j] = unit(&mut gn.rng) * pow2(t);
+            x[j] = unit(&mut gn.rng) * pow2(-t + r);
+            if gn.rng.chance(1, 3) {
+                // a second row of the same kind
+                let i2 = (i + 1) % n;
+                let j2 = (j + 1 + gn.rng.below(n as u64 - 1) as usize) % n;
+                let t2 = gn.rng.range(53, 90);
+                v[i2 * n + j2] = unit(&mut gn.rng) * pow2(t2);
+                x[j2] = unit(&mut gn.rng) * pow2(-t2 + gn.rng.range(-2, 2));
+            }
+        }
+        // right-hand side b = A x (in floating point), sometimes with a few components replaced by ordinary numbers
+        let mut b: Vec<f64> = (0..n).map(|i| (0..n).map(|j| v[i * n + j] * x[j]).sum()).collect();
+        if gn.rng.chance(1, 6) {
+            let z = gn.rng.below(n as u64) as usize;
+            b[z] = if exact { gn.rng.range(-3, 3) as f64 } else { gn.rng.uniform(-4.0, 4.0) };
+        }
+        let mut g = Grid { h: n, w: n, v };
+        if gn.rng.chance(1, 2) {
+            for i in (1..n).rev() {
+                let j = gn.rng.below(i as u64 + 1) as usize;
+                for c in 0..n {
+                    g.v.swap(i * n + c, j * n + c);
+                }
+                b.swap(i, j);
+            }
+        }
+        match gn.rng.below(4) {
+            0 => gn.scaled_rows(&mut g, &mut b, 30),
+            1 => gn.scaled_rows(&mut g, &mut b, if exact { 8 } else { 100 }),
+            _ => {}
+        }
+        let tol = *gn.rng.pick(&[1e-12, 1e-12, 1e-9, 1e-6]);
+        gn.gauss(&g, &b, tol);
+    }
+    // the smallest instances, spelled out: [[1, a], [2^-t, 1]] x = [2^t, c] and [[1, 1], [1, 2^t]] x = [1, 2] for every t
+    for t in 50..=95i64 {
+        for (a, c) in [(0.0, 2.0), (0.5, 1.0), (-1.0, 3.0)] {
+            gn.gauss(&Grid { h: 2, w: 2, v: vec![1.0, a, pow2(-t), 1.0] }, &[pow2(t), c], 1e-12);
+            gn.gauss(&Grid { h: 2, w: 2, v: vec![pow2(-t), 1.0, 1.0, a] }, &[c, pow2(t)], 1e-12);
+        }
+        gn.gauss(&Grid { h: 2, w: 2, v: vec![1.0, 1.0, 1.0, pow2(t)] }, &[1.0, 2.0], 1e-12);
+        gn.gauss(&Grid { h: 2, w: 2, v: vec![1.0, 1.0, 1.0, 6.022 * pow2(t)] }, &[1.0, 2.0], 1e-9);
+        gn.gauss(&Grid { h: 3, w: 3, v: vec![2.0, 1.0, 0.0, pow2(-t), 1.0, 0.5, 0.0, pow2(-t), 1.0] }, &[pow2(t + 1), 2.0, 1.0], 1e-12);
+    }
+    // triangular solves of the same kind: off-diagonal entries 2^-53..2^-90 of the diagonal in the column of a huge unknown
+    for k in 0..300 * reps {
+        let back = k % 2 == 0;
+        let n = gn.rng.range(2, 10) as usize;
+        let t = gn.rng.range(53, 90);
+        // the huge unknown is solved first: the last one for back substitution, the first for forward substitution
+        let c = if gn.rng.chance(2, 3) { if back { n - 1 } else { 0 } } else { gn.rng.below(n as u64) as usize };
+        let mut v = vec![f64::NAN; n * n];
+        let mut x: Vec<f64> = (0..n).map(|_| gn.rng.uniform(-2.0, 2.0)).collect();
+        x[c] = gn.rng.uniform(0.5, 1.0) * sign(&mut gn.rng) * pow2(t + gn.rng.range(-3, 3));
+        for i in 0..n {
+            let s = if k % 3 == 0 { pow2(gn.rng.range(-30, 30)) } else { 1.0 };
+            for j in 0..n {
+                let in_tri = if back { j >= i } else { j <= i };
+                if i == j {
+                    v[i * n + j] = gn.rng.uniform(0.5, 1.0) * sign(&mut gn.rng) * s;
+                } else if in_tri {
+                    let e = if j == c { -gn.rng.range(53, 90) } else { 0 };
+                    v[i * n + j] = gn.rng.uniform(-1.0, 1.0) * pow2(e) * s;
+                }
+            }
+        }
+        let b: Vec<f64> = (0..n)
+            .map(|i| (0..n).filter(|j| if back { *j >= i } else { *j <= i }).map(|j| v[i * n + j] * x[j]).sum())
+            .collect();
+        emit_subst(gn, back, &Grid { h: n, w: n, v }, n, &b, n);
+    }
 }
